@@ -42,6 +42,8 @@ pub struct GenCfg {
     pub asm_menu: bool,
     /// statements that put the low byte of an array address into a register (differential checks only)
     pub addr_low_byte: bool,
+    /// function names made of words joined by underscores (two caller/callee pairs can then read alike once joined)
+    pub word_names: bool,
     pub long_bodies: bool,
     pub opt_stress: bool,
     pub inline_permille: u32,
@@ -80,6 +82,7 @@ impl Default for GenCfg {
             hw: false,
             asm_menu: false,
             addr_low_byte: false,
+            word_names: false,
             long_bodies: false,
             opt_stress: false,
             inline_permille: 150,
@@ -570,6 +573,16 @@ impl<'g, 'r> ProgGen<'g, 'r> {
                     }
                 }
             }
+        }
+    }
+
+    /// the name of helper number `idx`
+    fn func_name(&self, idx: usize) -> String {
+        const WORDS: [&str; 8] = ["init", "sprite_init", "draw", "draw_sprite", "sprite", "draw_sprite_init", "a_b", "a"];
+        if self.cfg.word_names && idx < WORDS.len() {
+            WORDS[idx].to_string()
+        } else {
+            format!("f{}", idx)
         }
     }
 
@@ -1607,7 +1620,7 @@ impl<'g, 'r> ProgGen<'g, 'r> {
                 for t in ptys {
                     args.push(if t == Ty::Ptr { Expr::lit(0) } else { self.rvalue(fc, t, 1) });
                 }
-                let me = Stmt::Expr(Expr::Call(format!("f{}", fc.idx), args));
+                let me = Stmt::Expr(Expr::Call(self.func_name(fc.idx), args));
                 if self.g.chance(1, 2) && !self.callable(fc, false).is_empty() {
                     // a further call after the self-call
                     Self::new_expr_ctx(fc);
@@ -1788,7 +1801,21 @@ impl<'g, 'r> ProgGen<'g, 'r> {
         let k = self.g.below(3) as i32;
         let v = self.g.pick(&tg).clone();
         let w = tg.iter().find(|n| **n != v).cloned().unwrap();
-        match self.g.below(6) {
+        match self.g.below(8) {
+            // an addition or subtraction leaves a carry, then the function is called with constants: inlined, its
+            // first instructions follow the caller's with everything the optimizer knows about the registers
+            6 | 7 => {
+                // (an inline helper if there is one)
+                let inl: Vec<usize> = c.iter().cloned().filter(|i| self.helpers[*i].inline).collect();
+                let fi = if inl.is_empty() { fi } else { *self.g.pick(&inl) };
+                let f = self.helpers[fi].clone();
+                let args: Vec<Expr> = f.params.iter().map(|(_, t)| if *t == Ty::Ptr { Expr::lit(0) } else { Expr::lit(self.g.below(12) as i32) }).collect();
+                let op = if self.g.chance(1, 2) { BinOp::Add } else { BinOp::Sub };
+                vec![
+                    Stmt::Expr(Expr::assign(LValue::Var(w.clone()), Expr::bin(op, Expr::var(&w), Expr::lit(1 + self.g.below(200) as i32)))),
+                    Stmt::Expr(Expr::assign(LValue::Var(v), Expr::Call(f.name.clone(), args))),
+                ]
+            }
             // the result is stored and tested at once: the flags the callee returns with are those of its result
             4 | 5 => {
                 let t = match self.g.below(3) {
@@ -1835,6 +1862,20 @@ impl<'g, 'r> ProgGen<'g, 'r> {
         let arrs = self.arrays(fc, Some(true), true);
         let px = fc.protected.contains("X");
         let py = fc.protected.contains("Y");
+        if self.cfg.hw && v8.len() >= 4 && self.g.chance(1, 12) {
+            // an explicit load changes the accumulator like any other load: a constant that was in it before
+            // must be loaded again afterwards
+            let names: Vec<String> = v8.iter().map(|x| x.0.clone()).filter(|n| !n.starts_with("hv")).collect();
+            if names.len() >= 4 {
+                let kk = *self.g.pick(&[0, 0, 1, 255]);
+                return vec![
+                    Stmt::Expr(Expr::assign(LValue::Var(names[0].clone()), Expr::lit(kk))),
+                    Stmt::Load(Expr::var(&names[1])),
+                    Stmt::Store(LValue::Var(names[2].clone())),
+                    Stmt::Expr(Expr::assign(LValue::Var(names[3].clone()), Expr::lit(kk))),
+                ];
+            }
+        }
         let pick = self.g.below(if self.cfg.addr_low_byte { 44 } else { 41 });
         // (38..40 need cfg.addr_low_byte; the numbering of the other patterns is kept)
         let pick = if !self.cfg.addr_low_byte && pick >= 38 { pick + 3 } else { pick };
@@ -2238,14 +2279,29 @@ impl<'g, 'r> ProgGen<'g, 'r> {
         // each 16-bit add is ~13 bytes of code; 8-bit assignments ~4-7
         let mut v = vec![];
         let n = bytes / 6;
+        // 16-bit tables (ROM) and arrays read into a register through the other index register: the only
+        // accesses whose size depends on both the instruction and the memory class of the operand
+        let wide: Vec<String> = self
+            .globals
+            .iter()
+            .filter(|g| g.ty.bits() == 16 && g.ty != Ty::Ptr && matches!(g.kind, VarKind::ConstTable(_) | VarKind::Array(_)))
+            .map(|g| g.name.clone())
+            .collect();
         for _ in 0..n {
-            v.push(self.assign_stmt(fc));
+            if !wide.is_empty() && !fc.protected.contains("X") && !fc.protected.contains("Y") && self.g.chance(1, 6) {
+                let t = self.g.pick(&wide).clone();
+                let (dst, idx) = if self.g.chance(1, 2) { ("X", "Y") } else { ("Y", "X") };
+                v.push(Stmt::Expr(Expr::assign(LValue::Var(idx.into()), Expr::lit(0))));
+                v.push(Stmt::Expr(Expr::assign(LValue::Var(dst.into()), Expr::Lv(LValue::Index(t, Box::new(Expr::var(idx)))))));
+            } else {
+                v.push(self.assign_stmt(fc));
+            }
         }
         v
     }
 
     fn gen_func(&mut self, idx: usize, is_main: bool) -> Func {
-        let name = if is_main { "main".to_string() } else { format!("f{}", idx) };
+        let name = if is_main { "main".to_string() } else { self.func_name(idx) };
         let simple = !is_main && self.cfg.simple_helper_permille > 0 && self.g.chance(self.cfg.simple_helper_permille, 1000);
         let ret = if is_main || simple || self.g.chance(2, 5) {
             None
@@ -2322,6 +2378,29 @@ impl<'g, 'r> ProgGen<'g, 'r> {
             // keep declarations first
             let first_non_decl = body.iter().position(|s| !matches!(s, Stmt::Decl(_))).unwrap_or(body.len());
             body.insert(pos.max(first_non_decl), wrapped);
+        }
+        // an unsigned char parameter compared with a constant as the first thing the function does: called
+        // with a constant argument (and inlined), the comparison sits right behind what the caller left in
+        // the registers and in the carry
+        // (the last parameter: its value is the one the accumulator still holds at the call)
+        if let Some((pn, _)) = params.last().filter(|(_, t)| *t == Ty::U8).cloned() {
+            if self.g.chance(1, if inline { 2 } else { 4 }) {
+                let t8: Vec<String> = self.globals.iter().filter(|g| g.kind == VarKind::Scalar && is8(g.ty) && !g.name.starts_with("hv")).map(|g| g.name.clone()).collect();
+                if !t8.is_empty() {
+                    let t = self.g.pick(&t8).clone();
+                    let k = self.g.range(1, 9) as i32;
+                    let first_non_decl = body.iter().position(|s| !matches!(s, Stmt::Decl(_))).unwrap_or(body.len());
+                    self.label("unsigned-parameter-compare");
+                    body.insert(
+                        first_non_decl,
+                        Stmt::If(
+                            Expr::bin(*self.g.pick(&[BinOp::Le, BinOp::Gt, BinOp::Le, BinOp::Gt, BinOp::Lt, BinOp::Ge]), Expr::var(&pn), Expr::lit(k)),
+                            Box::new(Stmt::Expr(Expr::assign(LValue::Var(t.clone()), Expr::lit(1)))),
+                            Some(Box::new(Stmt::Expr(Expr::assign(LValue::Var(t), Expr::lit(2))))),
+                        ),
+                    );
+                }
+            }
         }
         // a signed char parameter used where its sign matters (comparison, widening, right shift)
         if let Some((pn, _)) = params.iter().find(|(_, t)| *t == Ty::I8).cloned() {
